@@ -235,6 +235,7 @@ func registerIntrinsics(e *Engine) {
 	registerBinary(e)
 	registerOS(e)
 	registerHash(e)
+	registerPipe(e)
 	registerMisc(e)
 	registerBig(e)
 }
